@@ -22,6 +22,7 @@
 // progress in shared memory; if the child dies the parent records a violation for that
 // transition, adds it to a skip list and restarts the (deterministic) exploration.
 #pragma once
+#include <sys/mman.h>
 #include "verif.h"
 #include "alloc.h"
 #include <deque>
@@ -689,45 +690,67 @@ inline int main_driver(int argc, char **argv, const char *prop, std::function<vo
 }
 
 // ----------------------------------------------------------------------------- helpers for systems
-// poison-filled raw storage for one object
+// poison-filled raw storage for one object, in a mapping of its own:
+//   [PROT_NONE page][ ... unused ... | 32 fence bytes | object | 32..47 fence bytes ][PROT_NONE page]
+// A write just outside the object's footprint (e.g. a terminator stored one past an in-object array) lands in a fence and
+// is reported by fence_damage(); a larger overrun faults on the guard page and is attributed to the transition in
+// progress by the job runner.  Nothing of the harness' own bookkeeping lives next to the object.
 template <class T>
 struct Slot {
-    // 32 fence bytes on either side of the object: a write just outside the object's footprint (e.g. a terminator
-    // stored one past an in-object array) is reported instead of silently hitting the harness' own bookkeeping
-    alignas(16) unsigned char pre[32];
-    alignas(16) unsigned char mem[sizeof(T)];
-    unsigned char post[32];
+    enum { FENCE = 32, PAGE = 4096, BODY = ((sizeof(T) + 2 * FENCE + 64 + PAGE - 1) / PAGE) * PAGE };
+    unsigned char *base = nullptr;  // start of the mapping
+    unsigned char *mem = nullptr;   // the object's storage
+    size_t post_len = 0;
     bool alive = false;
     Slot()
     {
-        memset(pre, 0xFE, sizeof pre);
-        memset(post, 0xFE, sizeof post);
+        base = (unsigned char *)mmap(nullptr, BODY + 2 * PAGE, PROT_READ | PROT_WRITE, MAP_PRIVATE | MAP_ANONYMOUS, -1, 0);
+        if (base == (unsigned char *)MAP_FAILED) {
+            perror("mmap(slot)");
+            _exit(2);
+        }
+        mprotect(base, PAGE, PROT_NONE);
+        mprotect(base + PAGE + BODY, PAGE, PROT_NONE);
+        unsigned char *guard = base + PAGE + BODY;
+        mem = (unsigned char *)(((uintptr_t)(guard - FENCE - sizeof(T))) & ~(uintptr_t)15);
+        post_len = (size_t)(guard - (mem + sizeof(T)));
+        memset(mem - FENCE, 0xFE, FENCE);
+        memset(mem + sizeof(T), 0xFE, post_len);
+        memset(mem, 0xCD, sizeof(T));
+    }
+    Slot(const Slot &) = delete;
+    Slot &operator=(const Slot &) = delete;
+    Slot(Slot &&o) noexcept : base(o.base), mem(o.mem), post_len(o.post_len), alive(o.alive) { o.base = o.mem = nullptr; }
+    ~Slot()
+    {
+        if (base) munmap(base, BODY + 2 * PAGE);
     }
     // empty when intact; otherwise a description (and the fence is repaired so that one overrun is reported once)
     std::string fence_damage()
     {
         std::string r;
-        for (size_t i = 0; i < sizeof post; ++i)
+        unsigned char *post = mem + sizeof(T), *pre = mem - FENCE;
+        for (size_t i = 0; i < post_len; ++i)
             if (post[i] != 0xFE) {
                 r = "byte " + std::to_string(i) + " after the end of the object was overwritten";
                 break;
             }
         if (r.empty())
-            for (size_t i = sizeof pre; i-- > 0;)
+            for (size_t i = FENCE; i-- > 0;)
                 if (pre[i] != 0xFE) {
-                    r = "byte " + std::to_string(sizeof pre - i) + " before the start of the object was overwritten";
+                    r = "byte " + std::to_string(FENCE - i) + " before the start of the object was overwritten";
                     break;
                 }
         if (!r.empty()) {
-            memset(pre, 0xFE, sizeof pre);
-            memset(post, 0xFE, sizeof post);
+            memset(pre, 0xFE, FENCE);
+            memset(post, 0xFE, post_len);
         }
         return r;
     }
     T *obj() { return reinterpret_cast<T *>(mem); }
     const T *obj() const { return reinterpret_cast<const T *>(mem); }
-    void poison() { memset(mem, 0xCD, sizeof mem); }
-    bool contains(const void *p) const { return (const unsigned char *)p >= mem && (const unsigned char *)p < mem + sizeof mem; }
+    void poison() { memset(mem, 0xCD, sizeof(T)); }
+    bool contains(const void *p) const { return (const unsigned char *)p >= mem && (const unsigned char *)p < mem + sizeof(T); }
 };
 
 inline std::string hexbytes(const void *p, size_t n)
